@@ -12,6 +12,7 @@ import (
 
 	"github.com/shutter-network/shutter/shlib/puredkg"
 	"github.com/shutter-network/shutter/shlib/shcrypto"
+	blst "github.com/supranational/blst/bindings/go"
 
 	"github.com/shutter-network/rolling-shutter/rolling-shutter/keyper/epochkg"
 	"github.com/shutter-network/rolling-shutter/rolling-shutter/keyper/kprtopics"
@@ -393,7 +394,7 @@ func TestC01_Exhaustive(t *testing.T) {
 
 func TestC01_HandlerPipeline(t *testing.T) {
 	rec := recorder("C01")
-	rec.AddRule("layer B (handler pipeline on one core keyper node, real schema on pgfake): key-share messages for 1-2 identity groups (each group always sent as a whole, sorted, as honest keypers do) from senders 1..n-1 of kinds {valid, one share made for another identity, shares made with a foreign eon key set, repeat of an earlier message} pass through the real combined validator and, if accepted, the real handler; model as in layer A per group; after every message: junk is rejected and leaves decryption_key_share / decryption_key untouched, a DecryptionKeys message is emitted exactly at the transition to t distinct valid senders and carries exactly the eon's keys for the group, the key table holds exactly the model's keys. non-trivial as in layer A")
+	rec.AddRule("layer B (handler pipeline on one core keyper node, real schema on pgfake): key-share messages for 1-2 identity groups (each group always sent as a whole, sorted, as honest keypers do) from senders 1..n-1 of kinds {valid, one share made for another identity, shares made with a foreign eon key set, shares of two identities swapped, two shares moved by +D/-D (wrong each, right in sum), repeat of an earlier message} pass through the real combined validator and, if accepted, the real handler; model as in layer A per group; after every message: junk is rejected and leaves decryption_key_share / decryption_key untouched, a DecryptionKeys message is emitted exactly at the transition to t distinct valid senders and carries exactly the eon's keys for the group, the key table holds exactly the model's keys. non-trivial as in layer A")
 	ctx := context.Background()
 	runRapid(t, N(120, 1500), func(rt *rapid.T) {
 		n := rapid.SampledFrom([]int{2, 3, 3, 4, 4, 5}).Draw(rt, "n")
@@ -437,6 +438,26 @@ func TestC01_HandlerPipeline(t *testing.T) {
 				}
 				m.Shares = append(m.Shares, &p2pmsg.KeyShare{IdentityPreimage: id, Share: src.EpochSecretKeyShare(identitypreimage.IdentityPreimage(madeFor), sender).Marshal()})
 			}
+			if k := len(m.Shares); k >= 2 {
+				switch kind {
+				case "swapped":
+					// every share is a genuine share of this keyper, but for the neighbour's identity
+					m.Shares[0].Share, m.Shares[k-1].Share = m.Shares[k-1].Share, m.Shares[0].Share
+				case "offset-pair":
+					// two shares moved by +D and -D: each is wrong, their sum is right
+					d := new(blst.P1)
+					d.FromAffine((*blst.P1Affine)(f.Real.EpochSecretKeyShare(identitypreimage.IdentityPreimage(bytes.Repeat([]byte{0x77}, 32)), sender)))
+					a, b := new(shcrypto.EpochSecretKeyShare), new(shcrypto.EpochSecretKeyShare)
+					if a.Unmarshal(m.Shares[0].Share) != nil || b.Unmarshal(m.Shares[k-1].Share) != nil {
+						panic("own share does not decode")
+					}
+					pa, pb := new(blst.P1), new(blst.P1)
+					pa.FromAffine((*blst.P1Affine)(a))
+					pb.FromAffine((*blst.P1Affine)(b))
+					m.Shares[0].Share = (*shcrypto.EpochSecretKeyShare)(pa.Add(d).ToAffine()).Marshal()
+					m.Shares[k-1].Share = (*shcrypto.EpochSecretKeyShare)(pb.Sub(d).ToAffine()).Marshal()
+				}
+			}
 			return mustMarshalP2P(m)
 		}
 		valid := map[int]map[int]bool{}
@@ -447,7 +468,7 @@ func TestC01_HandlerPipeline(t *testing.T) {
 		ln := rapid.IntRange(1, 3*n+4).Draw(rt, "histLen")
 		for step := 0; step < ln; step++ {
 			l := fmt.Sprintf("e%d", step)
-			kind := rapid.SampledFrom([]string{"valid", "valid", "valid", "valid", "valid", "wrong-identity", "foreign-key", "repeat"}).Draw(rt, l)
+			kind := rapid.SampledFrom([]string{"valid", "valid", "valid", "valid", "valid", "valid", "wrong-identity", "foreign-key", "swapped", "offset-pair", "repeat"}).Draw(rt, l)
 			var e elem
 			if kind == "repeat" && len(hist) > 0 {
 				e = hist[rapid.IntRange(0, len(hist)-1).Draw(rt, l+"ref")]
@@ -457,6 +478,9 @@ func TestC01_HandlerPipeline(t *testing.T) {
 					kind = "valid"
 				}
 				e = elem{kind: kind, sender: rapid.IntRange(1, n-1).Draw(rt, l+"s"), group: rapid.IntRange(0, ngroups-1).Draw(rt, l+"g")}
+				if (kind == "swapped" || kind == "offset-pair") && len(groups[e.group]) < 2 {
+					kind, e.kind = "wrong-identity", "wrong-identity"
+				}
 				e.data = build(kind, e.sender, e.group)
 				desc = append(desc, fmt.Sprintf("%s(k%d g%d)", kind, e.sender, e.group))
 			}
